@@ -7,7 +7,7 @@
 EXTENDS Naturals, Sequences, FiniteSets, FiniteSetsExt, TLC, Json
 CONSTANTS MaxCells, MaxPerCell
 I(n, vol, imp, sums, size, uni, av, boot, disc) ==
-  [n |-> n, pathof |-> n, volume_id |-> vol, implant_md5 |-> imp, checksums |-> sums, size |-> size, unified |-> uni,
+  [n |-> n, pathof |-> n, twinof |-> n, volume_id |-> vol, implant_md5 |-> imp, checksums |-> sums, size |-> size, unified |-> uni,
    additional_variants |-> av, bootable |-> boot, disc_number |-> disc, disc_count |-> IF disc = 0 THEN 0 ELSE 3]
 Pool == { I("p1", "set", "hex", "one", "small", FALSE, "none", TRUE, 1),
           I("p2", "null", "null", "two", "big", FALSE, "none", FALSE, 1),
@@ -18,14 +18,17 @@ Pool == { I("p1", "set", "hex", "one", "small", FALSE, "none", TRUE, 1),
           \* a DIFFERENT image that has the same path as p1 (legal in another cell)
           [I("p7", "null", "null", "one", "big", FALSE, "none", FALSE, 1) EXCEPT !.pathof = "p1"],
           \* additional variants on a non-unified image: the library must refuse to write it (if it agrees, C02 applies)
-          I("p8", "set", "null", "one", "small", FALSE, "one", TRUE, 1) }
+          I("p8", "set", "null", "one", "small", FALSE, "one", TRUE, 1),
+          \* a different file (own path, own checksum) with the identity of p1: a manifest holding both anywhere is one the
+          \* library must refuse to build (C09); if it agrees to write it, C02 applies and the file must read back
+          [I("p9", "set", "hex", "one", "small", FALSE, "none", TRUE, 1) EXCEPT !.twinof = "p1"] }
 ValidImg(i) == i.unified \/ i.additional_variants = "none"
 Cells == {"V1", "V2", "V-3"} \X {"a1", "a2"}
 VARIABLE m           \* manifest: chosen cells -> non-empty set of pool images
 DistinctPaths(S) == \A i, j \in S : i.pathof = j.pathof => i = j
 Init == \E cs \in UNION {kSubset(k, Cells) : k \in 1..MaxCells} :
           /\ m \in [cs -> {S \in UNION {kSubset(k, Pool) : k \in 1..MaxPerCell} : DistinctPaths(S)}]
-          /\ Cardinality({c \in cs : \E i \in m[c] : i.n \in {"p7", "p8"}}) <= 1
+          /\ Cardinality({c \in cs : \E i \in m[c] : i.n \in {"p7", "p8", "p9"}}) <= 1
 Next == FALSE /\ UNCHANGED m
 Empty == [k \in {} |-> 0]
 ImgDoc(i) == ("path" :> "$path:" \o i.pathof) @@ ("mtime" :> "$mtime:" \o i.n) @@ ("size" :> "$size:" \o i.size)
@@ -39,7 +42,8 @@ ArchesOf(v) == {c[2] : c \in {d \in DOMAIN m : d[1] = v}}
 ImagesDoc == [v \in Variants |-> [a \in ArchesOf(v) |-> [bypath |-> {ImgDoc(i) : i \in m[<<v, a>>]}]]]
 Obj == {[v |-> c[1], a |-> c[2], imgs |-> {i.n : i \in m[c]}] : c \in DOMAIN m}
 PoolJson == [n \in {i.n : i \in Pool} |-> CHOOSE i \in Pool : i.n = n]
-Valid == \A c \in DOMAIN m : \A i \in m[c] : ValidImg(i)
+Valid == /\ \A c \in DOMAIN m : \A i \in m[c] : ValidImg(i)
+         /\ \A c, d \in DOMAIN m : \A i \in m[c], j \in m[d] : i.twinof = j.twinof => i = j
 Emit == PrintT("@@" \o ToJson([obj |-> Obj, images |-> ImagesDoc, pool |-> PoolJson, valid |-> Valid]))
 \* ---- model-level checks
 NothingLost == \A c \in DOMAIN m : Cardinality(ImagesDoc[c[1]][c[2]].bypath) = Cardinality(m[c])   \* distinct paths: one record per image
